@@ -81,6 +81,17 @@ fn arb_message(w: &World, rng: &mut Rng) -> iroh_docs::sync::ProtocolMessage {
     build_message(w, &parts, &|_| [0xAB; 32]).0
 }
 
+/// A message of one item part over the whole range carrying 1-3 validly signed entries the acceptor does not hold yet.
+fn arb_items(w: &World, rng: &mut Rng) -> iroh_docs::sync::ProtocolMessage {
+    let n = 1 + rng.below(3);
+    let vals: Vec<Value> = (0..n)
+        .map(|i| json!({"e":{"a":1 + rng.below(2),"k":key_json(&[7, i as u8, rng.below(200) as u8]),"ts":50 + rng.below(5),"h":1 + i,"len":1 + i},
+                        "cls":"ok","cs":2}))
+        .collect();
+    let parts = json!([{"t":"item","x":[0,0,[]],"y":[0,0,[]],"vals":vals,"hl":true}]);
+    build_message(w, &parts, &|_| [0xAB; 32]).0
+}
+
 /// A frame (raw bytes, hand-encoded postcard) whose single fingerprint part carries record identifiers that are
 /// shorter than namespace + author ids (hostile peer). `init`: wrap in Init{namespace}, else Sync.
 fn bad_id_frame(w: &World, rng: &mut Rng, init: bool) -> Vec<u8> {
@@ -122,7 +133,7 @@ fn raw_bad(kind: &str) -> Vec<u8> {
     }
 }
 
-const BOB_FRAMES: &[&str] = &["InitOk", "InitOk", "InitUnknown", "InitBadId", "SyncValid", "SyncValid", "SyncArb", "SyncBadId", "Abort", "Garbage", "Oversize", "Partial", "Eof"];
+const BOB_FRAMES: &[&str] = &["InitOk", "InitOk", "InitItems", "InitUnknown", "InitBadId", "SyncValid", "SyncValid", "SyncArb", "SyncBadId", "Abort", "Garbage", "Oversize", "Partial", "Eof"];
 const CONDS: &[&str] = &["", "", "", "", "closed", "syncoff", "down"];
 
 /// Scripted peer against the real acceptor.
@@ -191,6 +202,11 @@ pub async fn bob_case(w: &World, rng: &mut Rng, script: &Value) -> Value {
                 let m = me.init().unwrap();
                 let ns = if kind == "InitOk" { w.nsid() } else { w.other_ns[1].id() };
                 let _ = peer_w.write_all(&encode_frame(Frame::Init { namespace: ns, message: m }).unwrap()).await;
+            }
+            "InitItems" => {
+                // a (dishonest but well-formed) opening message that already carries entries instead of a fingerprint
+                let m = arb_items(w, rng);
+                let _ = peer_w.write_all(&encode_frame(Frame::Init { namespace: w.nsid(), message: m }).unwrap()).await;
             }
             "InitBadId" => {
                 let _ = peer_w.write_all(&bad_id_frame(w, rng, true)).await;
@@ -555,7 +571,7 @@ pub fn gen_scripts(rng: &mut Rng, n: usize) -> Vec<Value> {
                 // most scripts start with a valid Init so that later frames are reached
                 let mut frames = vec![];
                 for j in 0..len {
-                    let f = if j == 0 && rng.chance(2, 3) { "InitOk" } else { *rng.pick(BOB_FRAMES) };
+                    let f = if j == 0 && rng.chance(2, 3) { if rng.chance(1, 4) { "InitItems" } else { "InitOk" } } else { *rng.pick(BOB_FRAMES) };
                     frames.push(json!({"frame": f, "fault": *rng.pick(CONDS)}));
                 }
                 json!({"kind":"bob","accept": *rng.pick(&["Allow","Allow","Allow","RejectNotFound","RejectAlreadySyncing"]),"frames":frames})
